@@ -68,7 +68,7 @@ class ColorVisuals(Visuals):
         """
         self.mesh = mesh
         self._data = caching.DataStore()
-        self._cache = caching.Cache(id_function=self._data.__hash__)
+        self._cache = caching.Cache(id_function=self._cache_id)
 
         try:
             if face_colors is not None:
@@ -133,6 +133,18 @@ class ColorVisuals(Visuals):
         return None
 
     def __hash__(self):
+        return self._data.__hash__()
+
+    def _cache_id(self) -> int:
+        """
+        The key of the cache of generated colors: face colors generated
+        from vertex colors (and the other way) depend on the faces of the
+        mesh as well as on the stored colors, so a mesh whose faces were
+        replaced may not be served colors generated for the old faces.
+        """
+        faces = getattr(self.mesh, "faces", None)
+        if isinstance(faces, caching.TrackedArray):
+            return hash((self._data.__hash__(), faces.__hash__()))
         return self._data.__hash__()
 
     def copy(self) -> "ColorVisuals":
